@@ -9,7 +9,10 @@ type key struct{ i, t uint64 }
 
 type ledgerEnt struct {
 	term, dig uint64
-	set       bool
+	// cterm is the current term of the node that first reported the index as
+	// committed; the leader that committed it had a term <= cterm.
+	cterm uint64
+	set   bool
 }
 
 // monitor holds the observer's global ledgers of one schedule.
@@ -51,7 +54,7 @@ func (m *monitor) seedBoot(idx, term uint64) {
 	k := key{idx, term}
 	m.digest[k] = 0
 	m.prefix[k] = mix(idx, term)
-	m.setLedger(idx, term, 0)
+	m.setLedger(idx, term, 0, 0)
 }
 
 func (m *monitor) growTo(i uint64) {
@@ -63,9 +66,9 @@ func (m *monitor) growTo(i uint64) {
 	}
 }
 
-func (m *monitor) setLedger(i, term, dig uint64) {
+func (m *monitor) setLedger(i, term, dig, cterm uint64) {
 	m.growTo(i)
-	m.ledger[i] = ledgerEnt{term: term, dig: dig, set: true}
+	m.ledger[i] = ledgerEnt{term: term, dig: dig, cterm: cterm, set: true}
 	if i > m.ledgerMax {
 		m.ledgerMax = i
 	}
@@ -77,7 +80,7 @@ func (m *monitor) commitAgree(s *Sim, n *node, how string, i, term, dig uint64) 
 	m.growTo(i)
 	le := m.ledger[i]
 	if !le.set {
-		m.setLedger(i, term, dig)
+		m.setLedger(i, term, dig, n.hs.Term)
 		return
 	}
 	if le.term != term || le.dig != dig {
@@ -123,9 +126,10 @@ func (m *monitor) observeReady(s *Sim, n *node, rd *raft.Ready) {
 }
 
 // checkLeaderCompleteness runs at the first Ready after n showed StateLeader
-// in a new term: the log it was elected with (Storage overlaid with the
+// in a new term T: the log it was elected with (Storage overlaid with the
 // not-yet-persisted Ready.Entries) must contain every entry that was in the
-// commit ledger at the moment of the election.
+// commit ledger at the moment of the election and was reported committed by a
+// node whose term was below T.
 func (m *monitor) checkLeaderCompleteness(s *Sim, n *node, rd *raft.Ready) {
 	d := n.disk
 	fi, _ := d.FirstIndex()
@@ -142,7 +146,10 @@ func (m *monitor) checkLeaderCompleteness(s *Sim, n *node, rd *raft.Ready) {
 	}
 	for i := base; i <= n.lcMax && i < uint64(len(m.ledger)); i++ {
 		le := m.ledger[i]
-		if !le.set {
+		if !le.set || le.cterm >= n.lcTerm {
+			// Leader Completeness speaks about entries committed in EARLIER
+			// terms: a candidate may collect delayed votes and become leader of
+			// term T after a leader of a later term has already committed more.
 			continue
 		}
 		var term uint64
